@@ -217,6 +217,7 @@ proof fn lemma_lc_consequences(s: JobState, t: JobState)
         is_ready(t) && s != t ==> pre_offer(s),
         upfailed(t) ==> !is_ready(s) && !is_running(s) && !ran_ok(s),
         is_running(t) ==> pre_offer(s) || is_ready(s) || s == t,
+        !pre_offer(s) ==> !pre_offer(t),
         pre_offer(s) && pre_offer(t) ==> pre_le(s, t),
         pre_unknown(t) ==> s == t,
         t == JobState::Ephemeral(JobStateEphemeral::NotReady(ValidationStatus::Invalidated)) ==> s == t || pre_unknown(s),
@@ -1961,7 +1962,10 @@ spec fn sig_post(s: Signal, jobs: Seq<NodeInfo>) -> bool {
         SignalKind::JobFinishedFailure => is_exec_failure(st),
         SignalKind::JobFinishedSuccess => ran_ok(st),
         SignalKind::JobCleanedUp => st == JobState::Ephemeral(JobStateEphemeral::FinishedSuccessCleanedUp),
-        SignalKind::JobUpstreamFailure => upfailed(st),
+        // a job that had not been offered when the notification was handled is upstream-failed now (the handler's
+        // own two-state clause says so); one that had already been offered, started or finished is left alone (C07:
+        // "no job that was started is ever reported upstream-failed") - either way it is past the pre-offer phase
+        SignalKind::JobUpstreamFailure => !pre_offer(st),
         _ => true,
     }
 }
